@@ -2,6 +2,7 @@ package sim
 
 import (
 	"fmt"
+	"os"
 	"strings"
 
 	"github.com/zilliztech/milvus-cdc/core/pb"
@@ -97,6 +98,9 @@ type SColl struct {
 	Shard int              `json:"shard"`
 	Ts    uint64           `json:"ts"`
 	Parts map[string]int64 `json:"parts"`
+	// Down: the collection exists at the downstreams before the run (the user created it there): the service sends no
+	// create request for it and stores no start position; its streams start at the end of the source channels
+	Down bool `json:"down,omitempty"`
 }
 
 type SScript struct {
@@ -280,6 +284,12 @@ func GenS(rng *Rng, prop, variant, tier string) *SScript {
 		l := createColl(names[i], 1, "default", true)
 		if withParts && (rng.Pct(40) || (pq && i == 0)) {
 			createPart(l, true)
+		} else if (prop == "C05" || prop == "C06") && !cf && rng.Pct(35) {
+			// collections that exist downstream before the task (SColl.Down): NOT enabled. With them the pinned tree shows a
+			// family of losses around the first checkpoint of such a collection (nothing is persisted for it until the first
+			// acknowledged pack is recorded) that was only partly triaged (DESIGN.md section 9, C05-7); the classes
+			// `_no_checkpoint_yet_for_preexisting_collection` / `_after_start_without_checkpoint` are in place for them
+			l.c.Down = os.Getenv("VERIF_DOWN_COLLECTIONS") != ""
 		}
 		if !light {
 			for j := 0; j < rng.Range(0, 3); j++ {
